@@ -21,8 +21,8 @@
 
    Square roots and geometric means are not rational.  The model therefore exposes the *pre-root*
    quantity `pre_values` together with the degree `root_deg` of the root the implementation takes
-   (2 for a square root, sum of the integer horizon weights for a geometric mean, their product for
-   both), and `post`, the aggregation applied after the root.  A value v is "the metric" iff there
+   (2 for a square root, sum of the integer-scaled horizon weights for a geometric mean, their
+   product for both), and `post`, the aggregation applied after the root.  A value v is "the metric" iff there
    are roots s_j >= 0 with s_j ^ deg == pre_j and v == post(s). *)
 From Coq Require Import QArith Qabs List Bool ZArith.
 Import ListNotations.
@@ -100,19 +100,26 @@ Definition agg (a : aggk) (hw : option (list Q)) (l : list Q) : Q :=
   | _, Some w => wmean w l
   end.
 
-(* geometric mean: zero errors are replaced by EPS (the documented floor); the model keeps the
-   product  prod_i x_i ^ W_i  and the degree  sum_i W_i  (integer horizon weights W_i, all 1 when
-   unweighted) *)
+(* geometric mean: zero errors are replaced by EPS (the documented floor).  The weighted
+   geometric mean  exp(sum_i w_i log x_i / sum_i w_i)  is not rational; the model keeps the product
+   prod_i x_i ^ W_i  and the degree  sum_i W_i  for INTEGER weights W_i proportional to the
+   horizon weights: W_i = w_i * D with D the least common multiple of the weights' denominators
+   (all 1 when unweighted).  Which common multiple is used does not matter (GMean.v:
+   gm_roots_proportional), zero weights drop the step (x ^ 0 = 1). *)
 Definition clamp0 (x : Q) : Q := if Qeq_bool x 0 then EPS else x.
+Definition lcm_den (w : list Q) : Z := fold_right (fun q d => Z.lcm (Zpos (Qden q)) d) 1%Z w.
+Definition int_weights (w : list Q) : list Z :=
+  let D := lcm_den w in map (fun q => (Qnum q * (D / Zpos (Qden q)))%Z) w.
 Definition gm_weights (hw : option (list Q)) (n : nat) : list Z :=
-  match hw with None => repeat 1%Z n | Some w => map Qnum w end.
+  match hw with None => repeat 1%Z n | Some w => int_weights w end.
 Definition gm_pre (W : list Z) (l : list Q) : Q :=
   fold_right Qmult 1 (map2 (fun x w => Qpower (clamp0 x) w) l W).
 Definition gm_deg (W : list Z) : Z := fold_right Z.add 0%Z W.
+(* valid horizon weights for np.average: non-negative, not all zero *)
 Definition gm_weights_ok (hw : option (list Q)) : bool :=
   match hw with
   | None => true
-  | Some w => forallb (fun q => Pos.eqb (Qden q) 1 && Z.ltb 0 (Qnum q)) w
+  | Some w => forallb (fun q => Z.leb 0 (Qnum q)) w && Z.ltb 0 (gm_deg (int_weights w))
   end.
 
 (* ---------------------------------------------------------------- point errors *)
